@@ -34,11 +34,11 @@ type c18Case struct {
 // c18ColdAllocs: heap allocations of one single ServeHTTP call right after two garbage collections (which empty every
 // sync.Pool); the smallest of three such measurements. The recorder's own map has been sized by an earlier call.
 func c18ColdAllocs(h http.Handler, r vlib.Req) (uint64, string) {
-	req := r.HTTP()
 	rec := vlib.NewRec()
 	best := ^uint64(0)
 	var ms runtime.MemStats
 	for rep := 0; rep < 4; rep++ {
+		req := r.HTTP() // a request object of its own each time: what a first call does to the request is not reused
 		rec.Reset()
 		runtime.GC()
 		runtime.GC()
